@@ -347,6 +347,7 @@ type spkCase struct {
 	Preload  int             `json:"preloaded_services"`
 	Rich     bool            `json:"rich_initial_state"`
 	IgnoreEx bool            `json:"ignore_exclude_lb"`
+	MLOff    bool            `json:"memberlist_disabled_and_node_other_created_later,omitempty"`
 	Prop     string          `json:"prop"`
 	Thorough bool            `json:"thorough_universe"`
 	History  []verifrt.Event `json:"history"`
@@ -361,7 +362,7 @@ type spkOracle struct {
 }
 
 func (o *spkOracle) mkCase(hist []verifrt.Event) spkCase {
-	c := spkCase{Prop: o.prop, Thorough: o.thorough, History: hist, Preload: o.u.Preload, IgnoreEx: o.u.IgnoreExcludeLB, Rich: o.u.Rich != nil, NoBurst: o.u.NoBurst}
+	c := spkCase{Prop: o.prop, Thorough: o.thorough, History: hist, Preload: o.u.Preload, IgnoreEx: o.u.IgnoreExcludeLB, Rich: o.u.Rich != nil, NoBurst: o.u.NoBurst, MLOff: o.u.MLDisabled}
 	var nodeNames []string
 	for n := range o.u.NodeVars {
 		nodeNames = append(nodeNames, n)
@@ -371,6 +372,8 @@ func (o *spkOracle) mkCase(hist []verifrt.Event) spkCase {
 		switch e.Kind {
 		case "svc":
 			c.Readable = append(c.Readable, fmt.Sprintf("service %s := %s", o.u.Svcs[e.A], o.u.SvcVars[e.B].Name))
+		case "mknode":
+			c.Readable = append(c.Readable, "Node object "+e.S+" is created")
 		case "delsvc":
 			c.Readable = append(c.Readable, "delete service "+o.u.Svcs[e.A])
 		case "eps":
@@ -394,6 +397,16 @@ func (o *spkOracle) mkCase(hist []verifrt.Event) spkCase {
 
 func (o *spkOracle) violate(hist []verifrt.Event, sig, detail string) {
 	c := o.mkCase(hist)
+	if o.u.MLDisabled && strings.HasPrefix(sig, "C09 announcements differ from a fresh speaker") {
+		// without memberlist the candidates of the layer-2 election are the Node objects this speaker has seen: a Node
+		// created after services were evaluated is a cause of its own (one signature whatever the symptom)
+		for _, e := range hist {
+			if e.Kind == "mknode" {
+				sig = "C09 announcements differ from a fresh speaker cause=node-object-created-after-services-were-evaluated memberlist=disabled"
+				break
+			}
+		}
+	}
 	o.res.Violate(sig, detail+"\n  history: "+strings.Join(c.Readable, " ; "), c)
 }
 
@@ -437,6 +450,21 @@ func (o *spkOracle) after(sys verifrt.System, hist []verifrt.Event, ev verifrt.E
 			}
 		}
 		if ok && !explained {
+			// "keeps refusing" must be true of the next attempt too: deliver the pending retries on a copy of this state
+			// (replay of the history on a fresh system); a retry that goes through now was only waiting for its turn
+			rep := (&verifrt.BFS{New: func() verifrt.System { return newSpkSys(o.u) }, Res: verifrt.NewResult(o.prop)}).Replay(hist).(*spkSys)
+			before := len(rep.errKeys)
+			for i := 0; i < 4 && !rep.quiescent(); i++ {
+				for _, e := range rep.Enabled() {
+					if !e.User && !e.Fault {
+						rep.Apply(e)
+						break
+					}
+				}
+			}
+			if rep.quiescent() || len(rep.errKeys) < before {
+				return
+			}
 			var pend []string
 			for k := range s.errKeys {
 				pend = append(pend, k)
@@ -561,6 +589,9 @@ func runSpk(t *testing.T, prop string) {
 		}
 		u := spkUniverseFor(prop, c.Thorough)
 		u.Preload, u.IgnoreExcludeLB = c.Preload, c.IgnoreEx
+		if c.MLOff {
+			u.MLDisabled, u.LateNodes = true, map[string]bool{"other": true}
+		}
 		if c.Rich {
 			u.NoBurst = true
 			u.Rich = [][2]int{{0, 3}, {1, 2}, {2, 6}, {3, 7}}
@@ -580,11 +611,20 @@ func runSpk(t *testing.T, prop string) {
 	type startT struct {
 		preload int
 		ignore  bool
+		mlOff   bool
 	}
-	starts := []startT{{0, false}, {1, false}, {2, false}, {1, true}, {-1, false}}
+	// the last start state: speakers without memberlist (every known Node counts as a live speaker), and the Node
+	// object of the other node is created while this speaker already announces a service
+	starts := []startT{{0, false, false}, {1, false, false}, {2, false, false}, {1, true, false}, {-1, false, false}, {1, false, true}}
 	for _, st := range starts {
 		u := spkUniverseFor(prop, thorough)
 		u.Preload, u.IgnoreExcludeLB = st.preload, st.ignore
+		if st.mlOff {
+			if prop != "C09" {
+				continue
+			}
+			u.MLDisabled, u.LateNodes = true, map[string]bool{"other": true}
+		}
 		// bursts of two user events: everywhere for C09; for C05 (wider alphabet) from the start state with one announced service
 		u.NoBurst = prop == "C05" && !(st.preload == 1 && !st.ignore) && !thorough
 		if st.preload == -1 {
@@ -621,7 +661,10 @@ func runSpk(t *testing.T, prop string) {
 		}
 		b := &verifrt.BFS{New: func() verifrt.System { return newSpkSys(u) }, Roots: roots, MaxUser: depth, Horizon: 80, After: o.after, Res: res,
 			Deadline: time.Now().Add(verifrt.Budget())}
-		if prop == "C05" && st.preload == 1 && !st.ignore {
+		if st.mlOff && !thorough {
+			b.MaxUser = 2 // quick tier: the creation of the Node object and one more event, in every delivery order
+		}
+		if prop == "C05" && st.preload == 1 && !st.ignore && !st.mlOff {
 			// one refused session update (Session.Set returns an error once): the retry must still publish the routes
 			spkFaultMenu = true
 			b.MaxFault = 1
